@@ -281,8 +281,25 @@ pub fn run(ctx: &Ctx) -> i32 {
         }
     });
     acc.merge(deep);
+    // every hand-written seed input once, deterministically (tiny and degenerate streams, rare syntax forms,
+    // used directives, other line break conventions, ...)
+    let seeds = corpus::seeds();
+    let seed_acc = crate::par::run(seeds.len(), 4, |i, acc| {
+        let it = &seeds[i];
+        acc.count("class_seed_inputs");
+        acc.distinct(&it.bytes);
+        for from in [it.fmt, None] {
+            for to in ALL {
+                let s = run_slice(&it.bytes, from, to);
+                for sc in [Sched::All, Sched::One, Sched::Fixed(3), Sched::Fixed(7)] {
+                    compare(&it.bytes, from, to, &sc, "seed", &s, acc);
+                }
+            }
+        }
+    });
+    acc.merge(seed_acc);
     let rule = format!(
-        "{} mixed corpus inputs (valid single/multi-document streams of every format, mutants, splices, seeds, random bytes/tokens) x relevant source selections x 4 targets x schedules [all, one, fixed(n), 2 random, boundary cuts], plus EVERY token sequence of length 1..={} over each format's alphabet x [own format, detect] x 2 targets x [all, one], plus {} large valid streams (50-1500 documents, up to 2 MiB) under 7 schedules incl. fixed(8191/8192/8193), plus documents nested to half of, just below, at and just beyond each format's depth limit (arrays, maps, mixtures; MessagePack also with 16/32-bit headers and wide collections, and at 100..1000); each evaluation is one (slice run, reader run) pair; distinct non-trivial = distinct non-empty input byte strings",
+        "{} mixed corpus inputs (valid single/multi-document streams of every format, mutants, splices, seeds, random bytes/tokens) x relevant source selections x 4 targets x schedules [all, one, fixed(n), 2 random, boundary cuts], plus EVERY token sequence of length 1..={} over each format's alphabet x [own format, detect] x 2 targets x [all, one], plus {} large valid streams (50-1500 documents, up to 2 MiB) under 7 schedules incl. fixed(8191/8192/8193), plus documents nested to half of, just below, at and just beyond each format's depth limit (arrays, maps, mixtures; MessagePack also with 16/32-bit headers and wide collections, and at 100..1000), plus every hand-written seed input (degenerate streams, rare syntax forms, used directives, CR / CRLF line breaks) x [own format, detect] x 4 targets x 4 schedules; each evaluation is one (slice run, reader run) pair; distinct non-trivial = distinct non-empty input byte strings",
         n_mixed, max_tok, n_large
     );
     let mut extra = serde_json::Map::new();
